@@ -197,3 +197,115 @@ Proof.
   intros L0 L1. unfold eval_dot. cbn [st_of is_arr andb negb shape_of arr_of bind length Nat.eqb hd].
   rewrite inner_loop by auto. reflexivity.
 Qed.
+
+(* ------------------------------------------------------------------ Dot, N-d by M-d (M >= 2) *)
+Lemma eval_dot_unfold st st1 st2 s0 s1 rs e0 e1 :
+  (2 <= length s1)%nat ->
+  eval_dot (TArray s0 st) (TArray s1 st1) (TArray rs st2) (VArr e0) (VArr e1) =
+    let l0 := length s0 in let l1 := length s1 in
+    let* middle := znth s1 (Z.of_nat l1 - 2) in
+    let* res :=
+      mapM (fun i =>
+              let* ri := number_to_index i rs in
+              fold_left (fun acc j =>
+                           let* a := acc in
+                           if (length ri <? l0 - 1)%nat then Panic else
+                           let index0 := firstn (l0 - 1) ri ++ [j] in
+                           let index1 := (let tl := skipn (l0 - 1) ri in
+                                          if (length tl =? 0)%nat then []
+                                          else insert_at tl (length tl - 1) j) in
+                           if (length (skipn (l0 - 1) ri) =? 0)%nat then Panic else
+                           let* n0 := index_to_number index0 s0 in
+                           let* n1 := index_to_number index1 s1 in
+                           let* x := znth e0 n0 in let* y := znth e1 n1 in
+                           Ok (k_add st a (k_mul st x y)))
+                        (zrange middle) (Ok 0))
+           (zrange (prod_list rs)) in
+    Ok (VArr res).
+Proof.
+  intros H1. unfold eval_dot. cbn [st_of is_arr andb negb shape_of arr_of bind is_scalar].
+  destruct (Nat.eqb_spec (length s1) 1); [lia|]. rewrite andb_false_r.
+  destruct (Nat.ltb_spec 1 (length s1)); [|lia]. reflexivity.
+Qed.
+
+Theorem dot_general_spec st st1 st2 a0 c k m e0 e1 :
+  valid_shape a0 -> valid_shape c -> 0 < k -> 0 < m ->
+  let s0 := a0 ++ [k] in let s1 := c ++ [k; m] in let rs := a0 ++ c ++ [m] in
+  length e0 = Z.to_nat (prod_list s0) -> length e1 = Z.to_nat (prod_list s1) ->
+  exists r, eval_dot (TArray s0 st) (TArray s1 st1) (TArray rs st2) (VArr e0) (VArr e1) = Ok (VArr r) /\
+    length r = Z.to_nat (prod_list rs) /\
+    forall ia ic j, in_shape ia a0 -> in_shape ic c -> 0 <= j < m ->
+      get r rs (ia ++ ic ++ [j]) =
+      dot_sum k (fun l => get e0 s0 (ia ++ [l])) (fun l => get e1 s1 (ic ++ [l; j])) mod modulus st.
+Proof.
+  intros Hva Hvc Hk Hm s0 s1 rs Le0 Le1.
+  assert (Ls0 : length s0 = (length a0 + 1)%nat) by (unfold s0; rewrite app_length; cbn; lia).
+  assert (Ls1 : length s1 = (length c + 2)%nat) by (unfold s1; rewrite app_length; cbn; lia).
+  rewrite eval_dot_unfold by lia. cbv zeta.
+  assert (Emid : znth s1 (Z.of_nat (length s1) - 2) = Ok k).
+  { rewrite (znth_ok _ _ 0) by lia. f_equal. replace (Z.to_nat (Z.of_nat (length s1) - 2)) with (length c) by lia.
+    unfold s1. apply nth_middle. }
+  rewrite Emid. cbn [bind].
+  assert (Hvrs : valid_shape rs).
+  { unfold rs. apply valid_shape_app. split; [exact Hva|]. apply valid_shape_app. split; [exact Hvc|repeat constructor; lia]. }
+  set (La := length a0). set (Lc := length c).
+  set (dd := fun ia ic j =>
+      dot_sum k (fun l => get e0 s0 (ia ++ [l])) (fun l => get e1 s1 (ic ++ [l; j])) mod modulus st).
+  destruct (mapM_over_shape
+    (fun ri => fold_left (fun acc j =>
+                           let* a := acc in
+                           if (length ri <? length s0 - 1)%nat then Panic else
+                           if (length (skipn (length s0 - 1) ri) =? 0)%nat then Panic else
+                           let* n0 := index_to_number (firstn (length s0 - 1) ri ++ [j]) s0 in
+                           let* n1 := index_to_number
+                                        (if (length (skipn (length s0 - 1) ri) =? 0)%nat then []
+                                         else insert_at (skipn (length s0 - 1) ri)
+                                                        (length (skipn (length s0 - 1) ri) - 1) j) s1 in
+                           let* x := znth e0 n0 in let* y := znth e1 n1 in
+                           Ok (k_add st a (k_mul st x y)))
+                        (zrange k) (Ok 0))
+    (fun ri => dd (firstn La ri) (firstn Lc (skipn La ri)) (nth (La + Lc) ri 0)) rs Hvrs) as (r & E & Lr & Hr).
+  - intros ri Hin. apply in_shape_app_inv in Hin as (Hia & Hrest). fold La in Hia, Hrest.
+    apply in_shape_app_inv in Hrest as (Hic & Hj). fold Lc in Hic, Hj.
+    set (ia := firstn La ri) in *. set (ic := firstn Lc (skipn La ri)) in *.
+    inversion Hj as [|j ? rest ? Hj' Hnil E1 E2]; subst. inversion Hnil; subst.
+    assert (Eri : ri = ia ++ ic ++ [j]).
+    { rewrite <- (firstn_skipn La ri). fold ia. f_equal.
+      rewrite <- (firstn_skipn Lc (skipn La ri)). fold ic. f_equal. congruence. }
+    pose proof (in_shape_length _ _ Hia) as Lia. fold La in Lia.
+    pose proof (in_shape_length _ _ Hic) as Lic. fold Lc in Lic.
+    assert (Ej : nth (La + Lc) ri 0 = j).
+    { rewrite Eri. rewrite app_nth2 by lia. rewrite app_nth2 by lia.
+      replace (La + Lc - length ia - length ic)%nat with O by lia. reflexivity. }
+    rewrite Ej. unfold dd.
+    apply fold_dot_loop'. intros l a Hl. cbn [bind].
+    replace (length s0 - 1)%nat with La by (unfold La; lia).
+    assert (Lri : length ri = (La + Lc + 1)%nat) by (rewrite Eri, !app_length; cbn [length]; lia).
+    replace (length ri <? La)%nat with false by lia.
+    assert (Esk : skipn La ri = ic ++ [j]).
+    { rewrite Eri. rewrite skipn_app. rewrite skipn_all2 by lia. replace (La - length ia)%nat with O by lia. reflexivity. }
+    rewrite Esk. rewrite app_length. cbn [length].
+    replace (length ic + 1 =? 0)%nat with false by lia.
+    fold ia. unfold insert_at. replace (length ic + 1 - 1)%nat with (length ic) by lia.
+    rewrite firstn_app, firstn_all2 by lia. rewrite Nat.sub_diag. cbn [firstn]. rewrite app_nil_r.
+    rewrite skipn_app, skipn_all2 by lia. rewrite Nat.sub_diag. cbn [skipn app].
+    assert (I0 : in_shape (ia ++ [l]) s0) by (apply in_shape_app; [exact Hia|repeat constructor; lia]).
+    assert (I1 : in_shape (ic ++ [l; j]) s1) by (apply in_shape_app; [exact Hic|repeat constructor; lia]).
+    rewrite (index_to_number_flat_pos _ _ I0). cbn [bind].
+    rewrite (index_to_number_flat_pos _ _ I1). cbn [bind].
+    pose proof (flat_pos_range _ _ I0) as R0. pose proof (flat_pos_range _ _ I1) as R1.
+    rewrite (znth_ok e0 _ 0) by lia. cbn [bind]. rewrite (znth_ok e1 _ 0) by lia. cbn [bind].
+    reflexivity.
+  - cbv zeta in E. rewrite E. cbn [bind]. exists r. split; [reflexivity|]. split; [exact Lr|].
+    intros ia ic j Hia Hic Hj.
+    rewrite Hr by (apply in_shape_app; [exact Hia|apply in_shape_app; [exact Hic|repeat constructor; lia]]).
+    pose proof (in_shape_length _ _ Hia) as Lia. fold La in Lia.
+    pose proof (in_shape_length _ _ Hic) as Lic. fold Lc in Lic.
+    rewrite firstn_app, firstn_all2 by lia. replace (La - length ia)%nat with O by lia.
+    cbn [firstn]. rewrite app_nil_r.
+    rewrite skipn_app, skipn_all2 by lia. replace (La - length ia)%nat with O by lia. cbn [skipn app].
+    rewrite firstn_app, firstn_all2 by lia. replace (Lc - length ic)%nat with O by lia.
+    cbn [firstn]. rewrite app_nil_r.
+    rewrite app_nth2 by lia. rewrite app_nth2 by lia.
+    replace (La + Lc - length ia - length ic)%nat with O by lia. reflexivity.
+Qed.
